@@ -12,7 +12,7 @@ sys.path.insert(0, HERE)
 TECH = {
     "C01": "MIR path enumeration + dominance: guarded constructors (bracket string, unary minus), semicolon table and first-target clause, lexeme table, collapse comment tests, frozen tables of feature-gated arms and comment guards, strip contracts; interpolated-string brace guard on the formatted segment; bracket-string predicate path table; type-parenthesis tables (R-TYPAREN); per-variant getter/setter field agreement (R-KEEP(e)); frozen table of comment tests that must force the hanging layout (R-COMMENTLAYOUT); escape-rewriting table (R-REGEX) also under C01; grammar oracle of parenthesis removal for every operand role; semicolon decision consults last children only (R-SEMI(last))",
     "C02": "MIR path enumeration: variant preservation of every formatter arm, child-from-own-element closures, lexeme table, parenthesis and type-parenthesis decision tables vs grammar oracle, call-sugar table, symbolic evaluation of rewritten literals; R-COMMENTLAYOUT (no code swallowed by a comment at nine confirmed sites); getter/setter field agreement; Luau tuple contents under the enclosing context; semicolon decision consults last children only (R-SEMI(last): accessor / field-projection blacklist over the call closure of check_stmt_requires_semicolon)",
-    "C03": "MIR typestate + accounting: trivia obligations of every discarded token discharged on all paths, Replace-site accounting and census, kept-token trivia pipeline (format_token / load_token_trivia / format_eof), getter/setter side agreement, frozen comment guards; R-COMMENTLAYOUT path tables; taken comment vectors consumed on every path (R-TAKE); printed text not post-processed (R-PRINT); getter-copied comments leave their source (R-COPY); token/expression pairs from one node (R-PAIR)",
+    "C03": "MIR typestate + accounting: trivia obligations of every discarded token discharged on all paths, Replace-site accounting and census, kept-token trivia pipeline (format_token / load_token_trivia / format_eof), getter/setter side agreement, frozen comment guards; R-COMMENTLAYOUT path tables; taken comment vectors consumed on every path (R-TAKE); printed text not post-processed (R-PRINT); getter-copied comments leave their source (R-COPY); token/expression pairs from one node (R-PAIR); path tables of the trailing-trivia getter and updater of each node type compared row by row under compatible conditions (R-TRIVIAPAIR)",
     "C04": "constant + regex-AST audit of the escape rewriting, decision-table extraction of quote selection; bracket-string guard and predicate path table (a long string after `[` is another literal); InterpolatedString segments rebuilt from the input literal only, no regex rewrite outside the StringLiteral arm; no lossy decoding of the input (R-EXACTREAD); R-PRINT; parser input provenance (R-PARSE(input))",
     "C05": "MIR decision-table extraction (ExpressionContext x inner kind) + role/context call-site pairs vs Lua grammar oracle, all layout paths; composite oracle kinds for unary operators over greedy operands; who may call remove_condition_parentheses",
     "C07": "MIR exhaustiveness of matches on non_exhaustive full_moon enums per feature configuration; dominance rules; prefix-role parenthesis invariant behind a stated belief; no formatter applied to a formatter's result (R-ONCE); caller-supplied offsets never index text (R-SLICE); R-ONCE through iterator items and closure parameters; parser input provenance and syntax conversion table (R-PARSE); frozen set of discarded trial-layout results (R-WASTE: formatting hoisted out of its guard is exponential in the depth); frozen bounded-cost trial shapes (R-TRIALSHAPE); frozen comment guards (R-GUARD)",
